@@ -109,6 +109,33 @@ fn families(quick: bool) -> Vec<LmFamily> {
         named: false,
     });
     // three variables in every order of kinds (free, non-free, free ...): positional bookkeeping of the split columns
+    // fixed variables (both ends equal, away from zero) before and after bounded and free ones
+    v.push(LmFamily {
+        name: "S9-fixed-variables-n2m1",
+        n: 2,
+        m: 1,
+        doms: vec![Dom::Real(2.0, 2.0), Dom::NonNegB(1.0, 1.0), Dom::Real(-1.5, -1.5), Dom::Real(-2.0, 3.0), Dom::NonNegB(1.0, 4.0), Dom::NonNeg, Dom::Free],
+        coefs: vec![-1.0, 0.0, 1.0, 2.0],
+        rhss: vec![-2.0, 0.0, 1.0],
+        rels: vec![Rel::Le, Rel::Ge, Rel::Eq],
+        objs: vec![-1.0, 0.0, 1.0],
+        senses: vec![Sense::Min, Sense::Max],
+        offsets: vec![0.0],
+        named: false,
+    });
+    v.push(LmFamily {
+        name: "S10-fixed-variables-n3m0",
+        n: 3,
+        m: 0,
+        doms: vec![Dom::Real(2.0, 2.0), Dom::NonNegB(1.0, 1.0), Dom::Real(-2.0, 3.0), Dom::NonNegB(1.0, 4.0), Dom::Free],
+        coefs: vec![0.0],
+        rhss: vec![0.0],
+        rels: vec![Rel::Le],
+        objs: vec![-1.0, 1.0],
+        senses: vec![Sense::Min, Sense::Max],
+        offsets: vec![0.0],
+        named: false,
+    });
     v.push(LmFamily {
         name: "S8-n3m1",
         n: 3,
